@@ -210,6 +210,10 @@ def oracle_accepts(f, want, tbl):
     ok, w = expected_density(f, dens, set(atoms), tbl)
     if not ok:
         bad.append("density: documented reading %r, parsed %r" % (w, f.density))
+    for a in f.atoms:
+        if a is not G.atom_of(G.key_of(a), tbl):
+            bad.append("atom %r of the parsed formula is not the atom of the table the string was parsed with" % (a,))
+            break
     return bad
 
 
@@ -223,12 +227,15 @@ class Checker:
         """cases: [(stream, string, info)]; info = derivation-reading for 'accepted', malformation
         name for 'malformed', None otherwise"""
         run = self.run
-        lines = list(self.prefix) + ["parse %s" % G.enc(s) for _, s, _ in cases]
-        replies = G.driver(lines)[len(self.prefix):]
-        if len(replies) != len(cases):
-            raise InfraError("driver returned %d replies for %d requests" % (len(replies), len(cases)))
-        for (stream, s, info), rep in zip(cases, replies):
-            m = G.parse_reply(rep)
+        lines = list(self.prefix)
+        for _, s, _, tree in cases:
+            lines.append("parse %s" % G.enc(s))
+            if tree is not None:
+                lines.append(G.encode_deriv(tree))
+        replies = iter(G.driver(lines)[len(self.prefix):])
+        for (stream, s, info, tree) in cases:
+            m = G.parse_reply(next(replies))
+            spec = G.parse_deriv_reply(next(replies)) if tree is not None else None
             p = G.py_parse(s, self.tbl)
             inp = dict(table=self.tname, string=s, stream=stream)
             tag = "%s:%s:%s" % (self.tname, stream, "accepted" if p[0] == "OK" else "rejected")
@@ -247,6 +254,17 @@ class Checker:
                 if p[0] == "OK":
                     run.violation("malformed string (%s) yields a formula %s" % (info, G.show_struct(p[1])), inp,
                                   kind="malformed-accepted", malformation=info)
+            # ---- the Lean specification (derivation -> yield, canon, denotation) against model and generator
+            if spec is not None:
+                canon, text, res = spec
+                if not canon:
+                    run.disagree("spec: generated derivation is canonical", inp, "canon=false", "generator")
+                if text != s:
+                    run.disagree("spec: yield of the derivation", inp, text, s)
+                if (res is None) != (m[0] != "OK") or (res is not None and (not G.same_items(res[0], m[1]) or res[1] != m[2])):
+                    run.disagree("spec: parse (yield D) = D.result (theorem parse_yield, evaluated)", inp,
+                                 "NONE" if res is None else (G.show_struct(res[0]), str(res[1])),
+                                 m[0] if m[0] != "OK" else (G.show_struct(m[1]), str(m[2])))
             # ---- model against code
             agree = True
             if m[0] == "OK" and p[0] == "OK":
@@ -328,8 +346,8 @@ def run_table(run: Run, tname, ref, tbl, prefix, n_acc, n_mal, n_nasty, maxdepth
     ck = Checker(run, tname, ref, tbl, prefix)
     # (0) exhaustive atoms and invalid neighbours
     ok, bad = sweep_cases(rng, ref, full_sweep)
-    cases = [("accepted", t, (({k: Fraction(1)}, Fraction(k[2]), None), {"atom"})) for t, k in ok]
-    cases += [("neighbour", t, what) for t, what in bad]
+    cases = [("accepted", t, (({k: Fraction(1)}, Fraction(k[2]), None), {"atom"}), None) for t, k in ok]
+    cases += [("neighbour", t, what, None) for t, what in bad]
     # (1) accepted stream
     for _ in range(n_acc):
         d = G.gen_compound(rng, ref, maxdepth=maxdepth, pb=rng.choice([0.0, 0.05, 0.2]))
@@ -337,25 +355,29 @@ def run_table(run: Run, tname, ref, tbl, prefix, n_acc, n_mal, n_nasty, maxdepth
         feats = G.features(d)
         for f in feats:
             run.dist["feature:" + f] = run.dist.get("feature:" + f, 0) + 1
-        cases.append(("accepted", s, (G.den_compound(d, ref), feats)))
+        cases.append(("accepted", s, (G.den_compound(d, ref), feats), d))
         # (2) one malformation of it
         if n_mal > 0 and rng.random() < n_mal / max(n_acc, 1):
             kind = rng.choice(G.MALFORMATIONS)
-            ms = G.malform(rng, d, ref, kind)
-            if ms is not None:
-                cases.append(("malformed", ms, kind))
-                run.dist["malformation:" + kind] = run.dist.get("malformation:" + kind, 0) + 1
+            if kind in G.UNDEFINED_KINDS:
+                # still a derivation of the grammar: goes to the Lean specification as well
+                bad = G.undefine(rng, d, ref, kind)
+                cases.append(("malformed", G.text_of(G.render_compound(bad)), kind, bad))
+            else:
+                ms = G.malform(rng, d, ref, kind)
+                cases.append(("malformed", ms, kind, None))
+            run.dist["malformation:" + kind] = run.dist.get("malformation:" + kind, 0) + 1
         # (3b) a byte mutation of it
         if rng.random() < 0.25:
-            cases.append(("nasty", G.mutate(rng, s), None))
+            cases.append(("nasty", G.mutate(rng, s), None, None))
     # (3) nasty strings
     for _ in range(n_nasty):
         s = G.nasty_string(rng, ref)
         if "\x00" in s:
             continue
-        cases.append(("nasty", s, None))
+        cases.append(("nasty", s, None, None))
     # the generator's own sanity: the reference reader agrees with the derivation reading
-    for stream, s, info in cases:
+    for stream, s, info, _tree in cases:
         if stream == "accepted":
             try:
                 got = ref_read(s, ref)
@@ -365,6 +387,7 @@ def run_table(run: Run, tname, ref, tbl, prefix, n_acc, n_mal, n_nasty, maxdepth
                 raise InfraError("harness: reference reader and derivation reading differ on %r" % s)
     for i in range(0, len(cases), 5000):
         ck.check(cases[i:i + 5000])
+    run.dist["%s:derivations-sent-to-the-Lean-spec" % tname] = sum(1 for c in cases if c[3] is not None)
     run.dist["%s:kind-mismatch(both reject)" % tname] = ck.kind_mismatch
     run.dist["%s:mixture-escape(skipped)" % tname] = ck.mixture_escapes
     return ck
